@@ -390,6 +390,7 @@ def _violations(obs):
     rows_tracked = 11 not in codes and not any((m[0] & 15) in (0, 1) and (m[0] >> 7) & 7 for m in mi[2])
     viol = []
     prev = [0] * len(mi[1])
+    begin = list(prev)   # state words at the last transaction boundary
     pfaults = set()
     for k, (mop, o) in enumerate(zip(mi[2], out)):
         if o == [99]:
@@ -428,11 +429,20 @@ def _violations(obs):
                     viol.append((k, name, "get-of-present-unexpired-object-emitted-sql-or-returned-another", (h,)))
             if err == 0 and res and sts[res[0]] >> 5 != want:
                 viol.append((k, name, "get-returned-wrong-identity", ()))
-        if code in (8, 9) and err == 0 and after is not None and k < len(after) and rows_tracked:
-            # at a transaction boundary every mapped object stands for a row of the table
+        if code == 8 and err == 0 and after is not None and k < len(after) and rows_tracked:
+            # after a commit every mapped object stands for a row of the table
             for j, w in enumerate(sts):
                 if w & 4 and ((w >> 5) - 1) >> 1 not in after[k]:
                     viol.append((k, name, "mapped-object-without-row-after-transaction-end", (j,)))
+        if code == 9 and err == 0:
+            # a rollback gives every object that was mapped when the transaction began, and still is, the identity
+            # key it had then.  (An object loaded during the transaction from a row that the rollback takes away
+            # - e.g. inserted by an object that was expunged afterwards - legitimately stays mapped, expired.)
+            for j, w in enumerate(sts):
+                if w & 4 and j < len(begin) and begin[j] & 4 and w >> 5 != begin[j] >> 5:
+                    viol.append((k, name, "rollback-did-not-restore-identity-key", (j,)))
+        if code in (8, 9) and err == 0:
+            begin = list(sts)
         prev = sts
     return viol
 
@@ -457,9 +467,11 @@ def match_finding(case, what):
     if kind == "detached-object-in-identity-map" and 4 in codes and 6 in codes:
         return "C34-rollback-maps-detached-object"
     if case.get("eager") and kind in ("get-returned-wrong-identity", "mapped-object-without-row-after-transaction-end",
+                                      "rollback-did-not-restore-identity-key",
                                       "query-results-do-not-carry-the-identities-of-the-rows"):
         return "C34-eager-defaults-key-switch-bypassed"
-    if kind == "mapped-object-without-row-after-transaction-end" and 12 in codes and 13 in codes and codes.count(6) >= 2:
+    if kind in ("mapped-object-without-row-after-transaction-end", "rollback-did-not-restore-identity-key") \
+            and 12 in codes and 13 in codes and codes.count(6) >= 2:
         return "C34-savepoint-release-loses-original-key"
     if kind in ("two-persistent-objects-one-identity", "persistent-object-not-in-identity-map"):
         if case.get("nostop"):
